@@ -9,6 +9,7 @@ namespace Bct.Modularity
 open Finset
 
 variable {n : ℕ}
+variable {g0 : GState}
 
 def DirInv (W : RMat n) (γ : ℚ) (st : DirSt n) (c : Fin n → Fin n) : Prop :=
   st.W = W ∧ st.s = total W ∧ st.γ = γ ∧
@@ -109,7 +110,7 @@ theorem dirInitFine_inv (W : RMat n) (γ : ℚ) (c : Lab n) :
 /-- **modularity_finetune_dir never returns a partition worse than its start** — every (directed) network
 of positive total weight, every start partition, every sequence of visiting orders. -/
 theorem finetuneDir_spec (W : RMat n) (γ : ℚ) (c0 : Fin n → ℤ) (ds : List ℕ) (out : Out n)
-    (hs : 0 < total W) (h : finetuneDir W γ c0 ds = .ok out) :
+    (hs : 0 < total W) (h : finetuneDir W γ c0 ds g0 = .ok out) :
     ∀ p ∈ out.levels, Qdir W γ c0 ≤ Qdir W γ (labOf p.1) := by
   unfold finetuneDir at h
   obtain ⟨c, hc, _⟩ := toLab_ok c0
